@@ -10,7 +10,7 @@ from common import driver, proof_stage
 import subgen
 from c15 import run_calls, stats
 
-MODULES = ["CobyqaVerif.Props.C16", "CobyqaVerif.Props.C15Loop", "CobyqaVerif.Props.C15Improve", "CobyqaVerif.Props.C16Cauchy", "CobyqaVerif.Props.C16CauchyDir", "CobyqaVerif.Props.C16Spider", "CobyqaVerif.Props.C16Ntcg", "CobyqaVerif.Props.C16NtcgImprove"]
+MODULES = ["CobyqaVerif.Props.C16", "CobyqaVerif.Props.C15Loop", "CobyqaVerif.Props.C15Improve", "CobyqaVerif.Props.C16Cauchy", "CobyqaVerif.Props.C16CauchyDir", "CobyqaVerif.Props.C16Spider", "CobyqaVerif.Props.C16Ntcg", "CobyqaVerif.Props.C16NtcgImprove", "CobyqaVerif.Props.C16Ctcg"]
 LEVEL = "proof"
 OWN = ("model-increased", "violation-increased", "magnitude-decreased")
 EPS = subgen.EPS
